@@ -17,7 +17,56 @@ import sqlite3
 import time as _time
 
 _state = {"installed": False, "mode": None, "orig_execute": None, "orig_commit": None, "stmts": 0, "commits": 0,
-          "rng": None, "p": 0.0, "max_ms": 0.0, "sched": None, "on_commit": None, "orig_create": {}, "log": None}
+          "rng": None, "p": 0.0, "max_ms": 0.0, "sched": None, "on_commit": None, "orig_create": {}, "log": None,
+          "orig_exit": None, "dml": {}, "on_effect": None, "effects": 0}
+
+_DML = re.compile(r"^\s*(INSERT(?:\s+OR\s+\w+)?\s+INTO|UPDATE|DELETE\s+FROM|REPLACE\s+INTO)\s+([\w]+)", re.S | re.I)
+_STATUS_WORDS = None
+
+
+def dml_label(sql, parameters):
+    """'UPDATE orchestrator_invocations[PENDING]' style label of a writing statement (None for reads)"""
+    global _STATUS_WORDS
+    m = _DML.match(sql)
+    if not m:
+        return None
+    verb = m.group(1).split()[0].upper()
+    table = m.group(2)
+    table = table.split("__", 1)[1] if "__" in table else table
+    if _STATUS_WORDS is None:
+        try:
+            from pynenc.invocation.status import InvocationStatus
+            _STATUS_WORDS = {s.value: s.name for s in InvocationStatus}
+        except Exception:
+            _STATUS_WORDS = {}
+    st = ""
+    if "invocations" in table and verb in ("UPDATE", "INSERT"):
+        for prm in parameters or ():
+            if isinstance(prm, str) and prm in _STATUS_WORDS:
+                st = f"[{_STATUS_WORDS[prm]}]"
+                break
+    return f"{verb} {table}{st}"
+
+
+def _note_effect(conn_id):
+    """a transaction with writing statements became durable: one backend effect"""
+    st = _state
+    labels = st["dml"].pop(conn_id, None)
+    if not labels:
+        return
+    st["effects"] += 1
+    cb = st["on_effect"]
+    if cb is not None:
+        cb(st["effects"], labels)
+
+
+def _exit(self, exc_type, exc_val, exc_tb):
+    r = _state["orig_exit"](self, exc_type, exc_val, exc_tb)
+    if exc_type is None:
+        _note_effect(id(self._conn))
+    else:
+        _state["dml"].pop(id(self._conn), None)
+    return r
 
 _KIND = re.compile(r"^\s*(\w+)(?:\s+(\w+))?", re.S)
 
@@ -37,6 +86,10 @@ def _execute(self, sql, parameters=(), /):
     st = _state
     st["stmts"] += 1
     mode = st["mode"]
+    if st["on_effect"] is not None:
+        lab = dml_label(sql, parameters)
+        if lab:
+            st["dml"].setdefault(id(self._conn), []).append(lab)
     if mode == "delay":
         if st["rng"].random() < st["p"]:
             _time.sleep(st["rng"].random() * st["max_ms"] / 1000.0)
@@ -78,10 +131,11 @@ def _commit(self):
     cb = st["on_commit"]
     if cb is not None:
         cb(st["commits"])
+    _note_effect(id(self._conn))
     return r
 
 
-def install(mode="count", seed=0, p=0.3, max_ms=2.0, sched=None, on_commit=None):
+def install(mode="count", seed=0, p=0.3, max_ms=2.0, sched=None, on_commit=None, on_effect=None):
     from pynenc.util import sqlite_utils
     st = _state
     if not st["installed"]:
@@ -90,9 +144,11 @@ def install(mode="count", seed=0, p=0.3, max_ms=2.0, sched=None, on_commit=None)
         # commit is reached through __getattr__ delegation today; adding the method intercepts it
         st["orig_commit"] = sqlite_utils.SQLiteConnection.__dict__.get("commit")
         sqlite_utils.SQLiteConnection.commit = _commit
+        st["orig_exit"] = sqlite_utils.SQLiteConnection.__exit__
+        sqlite_utils.SQLiteConnection.__exit__ = _exit
         st["installed"] = True
     st.update(mode=mode, rng=random.Random(seed * 7919 + os.getpid()), p=p, max_ms=max_ms, sched=sched, on_commit=on_commit,
-              stmts=0, commits=0)
+              stmts=0, commits=0, on_effect=on_effect, effects=0, dml={})
     if mode == "sched":
         _patch_busy_timeout(True)
     return st
@@ -110,11 +166,13 @@ def uninstall():
                 pass
         else:
             sqlite_utils.SQLiteConnection.commit = st["orig_commit"]
+        sqlite_utils.SQLiteConnection.__exit__ = st["orig_exit"]
         st["installed"] = False
     _patch_busy_timeout(False)
     st["mode"] = None
     st["sched"] = None
     st["on_commit"] = None
+    st["on_effect"] = None
 
 
 SQLITE_MODULES = [
